@@ -514,6 +514,25 @@ example : updateNested 1 [none, some (.int 7)] [some (.int 1), none] =
   updateNested_present 1 _ _ (.int 7) rfl rfl
 example : kBin ["bin", "bins"] ≠ kBins ["bin", "bins"] := by decide
 
+-- `compute_twice_untyped`: the state of `Props/C11.lean` (no `context.variable`, an untyped variable)
+example : SIB.computeAgain [] exAn exAv exS1 = SIB.compute [] exAn exAv exS1 :=
+  compute_twice_untyped [] exAn exAv exS1 rfl rfl rfl
+
+-- `iterate_cell_context`: the first cell of `exH` (context without `bins`/`bin`)
+example := iterate_cell_context (α := Int) (ε := Unit) (D := Int) ["bin", "bins"] (fun _ _ => .ok (.str "s"))
+  (encEdges V.int) (by decide) [none, none] (.pair 7 [none, none]) [(0, 2)] (.str "s") rfl rfl rfl
+
+-- `map_bins_count_le`: the sequence that yields a cell twice, on the cell 7 of `exHV`
+example : (mapBinsOne ["value"] (fun c => (.ok ⟨[c, c], none⟩ : Except Unit (Trace (Value V) Unit))) (fun _ => true) true
+    (.hist exHV none)).out.length ≤ 2 := by decide
+
+-- `two_level_cells`: a 3 x 2 mesh of 3 x 2 meshes (the hypotheses hold; here for the empty flow)
+example : ∃ (sI0 : SIB Int (List (List Int))) (sO0 : SIB Int (SIB Int (List (List Int)))),
+    (SIB.new [] (some []) true exEdges : Except (Exc Unit) _) = .ok sI0 ∧
+    (SIB.new [] (some sI0) true exEdges : Except (Exc (Exc Unit)) _) = .ok sO0 ∧
+    SIB.fillAll [] (SIB.analysis [] exAn exAv exG (fun t => t)) ⟨fun d => .ok (.tuple d), []⟩ exG sO0 [] = .ok sO0 :=
+  ⟨_, _, new_valid [] exEdges_valid [], new_valid [] exEdges_valid _, rfl⟩
+
 end Examples
 
 end Lena.C11
